@@ -471,6 +471,34 @@ def structural_designs() -> Iterator[Tuple[str, dict]]:
                        insts=[_inst("arr", ["mod", "Ca"], conns, kind="array", n=n)] + extra +
                              [_inst("ob", L("E2"), {"x": ["bref", "bb", ["y"]], "y": ["bref", "bb", ["x"]]}, tag=20)])
             yield (f"array-{n}-{aform}", {"bundles": B(), "modules": [copy.deepcopy(ch), top], "top": "T"})
+    # no-connects on array and pair ports: every element's port ends alone
+    for n in (1, 2, 3):
+        for which in ("out", "bus", "both", "bundle-port"):
+            conns = {"a": S("a2"), "b": S("b1"), "bp": ["bun", "bb"]}
+            if which in ("out", "both"):
+                conns["b"] = ["nc", 1, None]
+            if which in ("bus", "both"):
+                conns["a"] = ["nc", 2, "open" if which == "both" else None]
+            if which == "bundle-port":
+                conns["bp"] = ["nc", 3, None]
+            top = _mod("T", sigs=[["a2", 2], ["b1", 1]], buns=[["bb", "B1"]],
+                       insts=[_inst("arr", ["mod", "Ca"], conns, kind="array", n=n),
+                              _inst("oa", L("E2"), {"x": S("a2"), "y": S("b1")}, tag=21),
+                              _inst("ob", L("E2"), {"x": ["bref", "bb", ["y"]], "y": ["bref", "bb", ["x"]]}, tag=20)])
+            yield (f"array-{n}-noconn-{which}", {"bundles": B(), "modules": [copy.deepcopy(ch), top], "top": "T"})
+    for which in ("scalar", "bundle-port"):
+        cp = _mod("Cp", ports=[["a", 2, "in"], ["b", 1, "out"]], bports=[["bp", "B1", False, None]],
+                  insts=[_inst("e", L("E2"), {"x": S("a"), "y": S("b")}, tag=1),
+                         _inst("f", L("E2"), {"x": ["bref", "bp", ["y"]], "y": ["bref", "bp", ["x"]]}, tag=2)])
+        if which == "scalar":
+            cp["bports"] = []
+            cp["insts"] = cp["insts"][:1]
+        conns = {"a": S("a2"), "b": ["nc", 1, None]} if which == "scalar" else {"a": ["nc", 2, None], "b": S("b1"), "bp": ["nc", 3, None]}
+        top = _mod("T", sigs=[["a2", 2], ["b1", 1]], buns=[["bb", "B1"]],
+                   insts=[_inst("pr", ["mod", "Cp"], conns, kind="pair"),
+                          _inst("oa", L("E2"), {"x": S("a2"), "y": S("b1")}, tag=21),
+                          _inst("ob", L("E2"), {"x": ["bref", "bb", ["y"]], "y": ["bref", "bb", ["x"]]}, tag=20)])
+        yield (f"pair-noconn-{which}", {"bundles": B(), "modules": [cp, top], "top": "T"})
     # arrays of leaves, and anonymous-bundle / bundle-reference valued array ports
     for n in (2, 3):
         top = _mod("T", sigs=[["s", n], ["g", 1]],
@@ -648,8 +676,9 @@ class RandomDesigner:
             for port, w in sp.items():
                 x = r.random()
                 kind = inst["kind"]
-                if x < self.p_nc and kind == "single":
-                    inst["conns"][port] = ["nc", r.randint(0, 2) if r.random() < 0.3 else 100 + self.newtag(), None]
+                if x < self.p_nc:
+                    # (on arrays and pairs every element's port ends alone; shared no-connect objects only between single instances)
+                    inst["conns"][port] = ["nc", r.randint(0, 2) if r.random() < 0.3 and kind == "single" else 100 + self.newtag(), None]
                 elif x < self.p_nc + self.p_pref and kind == "single":
                     # port reference to another single instance's port of equal width
                     cands = []
